@@ -43,11 +43,16 @@ func HarnessRevalidation() {
 	case 0:
 		// the 304 may carry freshness headers of its own; the renewal is by the configured default
 		h304 := hdr()
-		switch symChoice(3) {
+		switch symChoice(5) {
 		case 1:
 			h304["Cache-Control"] = []string{"max-age=1"}
 		case 2:
 			h304["Cache-Control"] = []string{"max-age=86400"}
+		case 3:
+			h304["Content-Length"] = []string{"0"} // describes the 304 message itself, not the stored body
+			h304["Content-Type"] = []string{"text/x-304"}
+		case 4:
+			h304["Content-Encoding"] = []string{"gzip"}
 		}
 		e.o.script = []originResp{{status: 200, header: h1, body: []byte("v1")}, {status: 304, header: h304}}
 	case 1:
@@ -136,6 +141,11 @@ func HarnessRevalidation() {
 	case 0:
 		vReach("304")
 		vAssert(c2.status == 200 && string(c2.body) == "v1", "c06.304-does-not-serve-stored-body")
+		// ... with the stored response's own description of that body
+		if cl, okL := vNumIn(one(c2.header, "Content-Length"), ""); okL {
+			vAssert(cl == 2, "c06.304-changes-the-stored-bodys-headers")
+		}
+		vAssert(len(c2.header["Content-Encoding"]) == 0 && one(c2.header, "Content-Type") != "text/x-304", "c06.304-changes-the-stored-bodys-headers")
 		vAssert(one(c2.header, "X-Cache") == "REVALIDATED", "c06.304-not-labelled-revalidated")
 		vAssert(err2 == nil && m2.Expires.Equal(t1.Add(dflt)), "c06.revalidation-does-not-renew-by-default")
 	case 1:
